@@ -4,6 +4,7 @@ import (
 	"bytes"
 	"encoding/json"
 	"fmt"
+	"math"
 	"strconv"
 	"time"
 
@@ -86,6 +87,10 @@ func JSONWriteUintProp(b *[]byte, n string, d uint64) (notEmpty bool) {
 }
 
 func JSONWriteFloatProp(b *[]byte, n string, f float64) (notEmpty bool) {
+	if math.IsNaN(f) || math.IsInf(f, 0) {
+		// NOTE: JSON has no way to write these, the property is left out
+		return false
+	}
 	return JSONWriteProp(b, n, []byte(strconv.FormatFloat(f, 'f', -1, 64)))
 }
 
